@@ -25,6 +25,7 @@ type PtyProg struct {
 	H     int    `json:"h"`
 	W     int    `json:"w"`
 	Pop   bool   `json:"pop"`
+	Exact bool   `json:"exact"` // the persist marks are reliable (no popped bar is ever clipped)
 	Bars  []struct {
 		Ext   int  `json:"ext"`
 		NoPop bool `json:"nopop"`
@@ -212,9 +213,13 @@ func runPty(pg *PtyProg) ([]Event, error) {
 			if w := runewidth.StringWidth(l.s); w > maxw {
 				maxw = w
 			}
-			lines = append(lines, Event{"s": l.s, "persist": persist})
+			base := ""
+			if l.bar != "" {
+				base = strings.SplitN(l.s, "#", 2)[0]
+			}
+			lines = append(lines, Event{"s": l.s, "base": base, "persist": persist})
 		}
-		evs = append(evs, Event{"tr": pg.ID, "h": pg.H, "w": pg.W, "k": k + 1, "cuu": chunks[k].cuu, "lines": lines, "maxw": maxw, "nrows": nrows})
+		evs = append(evs, Event{"tr": pg.ID, "h": pg.H, "w": pg.W, "k": k + 1, "cuu": chunks[k].cuu, "lines": lines, "maxw": maxw, "nrows": nrows, "exact": pg.Exact})
 	}
 	return evs, nil
 }
